@@ -191,7 +191,7 @@ Definition c17_irun (c : icase) : iobs :=
       else IErr
   | IGd ref comp =>
       if well_formed ref comp && negb (Nat.eqb (length ref) 0) && negb (Nat.eqb (length comp) 0)
-      then let e := gd_enclosure 64 ref comp in IEncl (fst e) (snd e)
+      then let e := gd_enclosure_red 64 ref comp in IEncl (fst e) (snd e)   (* == gd_enclosure 64, C17_gd_enclosure_red_sound *)
       else IErr
   end.
 
